@@ -762,10 +762,11 @@ def ratio_rejection(repo: Repo) -> RuleRun:
     """'... the total expansion is finite and positive ... parameter sets that cannot be realised on the edge are rejected with
     an error': a total or cell-to-cell expansion that is zero or negative cannot be realised by a geometric progression. Every
     relation that takes a ratio is run abstractly (float arithmetic of the analyser, numpy's log / isnan and the root finder
-    modelled) with that ratio at 0, -0.5 and -2 and ordinary companions: the run must end in a raise, not in a result."""
+    modelled) with that ratio at 0, -0.5, -2, nan and inf and ordinary companions: the run must end in a raise, not in a result
+    (nan passes a test written for the invalid range, 'x <= 0', and gives a non-finite grading)."""
     import math
 
-    r = RuleRun(PROP, "C03.RATIO-REJECTION", floor=10, what="every relation taking a total / cell-to-cell expansion rejects a zero or negative ratio (abstract run with the ratio at 0, -0.5, -2 ends in a raise); the validators accept 0.5, 1, 2")
+    r = RuleRun(PROP, "C03.RATIO-REJECTION", floor=10, what="every relation taking a total / cell-to-cell expansion rejects a zero or negative ratio (abstract run with the ratio at 0, -0.5, -2, nan, inf ends in a raise); the validators accept 0.5, 1, 2")
     ORDINARY = {"length": 1.0, "count": 10, "start_size": 0.1, "end_size": 0.1, "c2c_expansion": 1.1, "total_expansion": 2.0}
 
     def hook(ev, call, name):
@@ -852,7 +853,7 @@ def ratio_rejection(repo: Repo) -> RuleRun:
         return NO_MATCH
 
     def run(fn, args):
-        ev = Evaluator(repo=repo, module=fn.module, call_hook=hook)
+        ev = Evaluator(repo=repo, module=fn.module, call_hook=hook, bind={"np.inf": float("inf"), "numpy.inf": float("inf"), "math.inf": float("inf"), "np.nan": float("nan")})
         ev.binop_hook = arith
         ev.float_arith = True
         try:
@@ -870,7 +871,7 @@ def ratio_rejection(repo: Repo) -> RuleRun:
         for ratio in ("total_expansion", "c2c_expansion"):
             if ratio not in fn.params:
                 continue
-            for bad in (0.0, -0.5, -2.0):
+            for bad in (0.0, -0.5, -2.0, float("nan"), float("inf")):
                 args = [bad if p == ratio else ORDINARY[p] for p in fn.params]
                 kind, out = run(fn, args)
                 n += 1
@@ -879,7 +880,7 @@ def ratio_rejection(repo: Repo) -> RuleRun:
                     fn,
                     f"{ratio} = {bad:g} rejected",
                     f"{fn.name}({', '.join(f'{p}={a:g}' for p, a in zip(fn.params, args))}) returns {out!r} instead of raising: a {ratio.replace('_', ' ')} of {bad:g} cannot be realised by a geometric "
-                    f"progression, yet Chop(...).calculate() hands out a grading with a non-positive / complex expansion instead of an error",
+                    f"progression, yet Chop(...).calculate() hands out a grading with a non-positive / complex / non-finite expansion instead of an error",
                     fn.node,
                     key=f"{ratio}:{bad:g}",
                 )
@@ -905,7 +906,7 @@ def ratio_rejection(repo: Repo) -> RuleRun:
         for good in (0.5, 1.0, 2.0):
             kind, out = run(vf, [good])
             r.check(kind == "returns", vf, f"{good:g} accepted", f"{vname}({good:g}) raises: an ordinary ratio is refused", vf.node, key=f"accept:{good:g}")
-    r.require(n >= 27, f"only {n} ratio scenarios found in grading.relations")
+    r.require(n >= 45, f"only {n} ratio scenarios found in grading.relations")
     return r
 
 
